@@ -36,6 +36,7 @@ type c01Knobs struct {
 	trickle                     bool
 	restart                     bool
 	natA, natB                  int // 0 none, else simnet.NATKind+1 (at most one side)
+	relayA, relayB              bool
 }
 
 func drawC01Knobs(c *core.Ctx) c01Knobs {
@@ -58,6 +59,8 @@ func drawC01Knobs(c *core.Ctx) c01Knobs {
 	k.advW = []int{10, 20}[t.Choose(2, "advw")]
 	k.trickle = t.Bias(1, 2, "trickle")
 	k.restart = t.Bias(1, 4, "restart")
+	k.relayA = t.Bias(1, 5, "relayA")
+	k.relayB = !k.liteB && t.Bias(1, 5, "relayB")
 	if t.Bias(1, 4, "nat") {
 		kind := 1 + t.Choose(4, "natkind")
 		if t.Bias(1, 2, "natside") && !k.liteB {
@@ -69,12 +72,15 @@ func drawC01Knobs(c *core.Ctx) c01Knobs {
 	if k.liteB {
 		k.aliasB = false
 	}
-	if k.natA != 0 {
+	// one srflx source per side: the mapped (alias) gatherer and the STUN gatherer issue identical listens,
+	// which the simulator could not order canonically
+	if k.natA != 0 || k.relayA {
 		k.aliasA = false
 	}
-	if k.natB != 0 {
+	if k.natB != 0 || k.relayB {
 		k.aliasB = false
 	}
+	c.Knob("relay", fmt.Sprintf("%v/%v", k.relayA, k.relayB))
 	c.Knob("natA", k.natA)
 	c.Knob("natB", k.natB)
 	c.Knob("nA", k.nA)
@@ -113,14 +119,22 @@ func runC01(c *core.Ctx) {
 		}
 	}
 	cfg := rig.DuoCfg{AddrsA: c01Addrs("10.0.1", k.nA), AddrsB: c01Addrs("10.0.2", k.nB)}
-	cfg.OptsA = append(commonOpts(), ice.WithCandidateTypes([]ice.CandidateType{ice.CandidateTypeHost, ice.CandidateTypeServerReflexive}))
+	typesFor := func(relay bool) []ice.CandidateType {
+		ts := []ice.CandidateType{ice.CandidateTypeHost, ice.CandidateTypeServerReflexive}
+		if relay {
+			ts = append(ts, ice.CandidateTypeRelay)
+		}
+		return ts
+	}
+	cfg.RelayA, cfg.RelayB = k.relayA, k.relayB
+	cfg.OptsA = append(commonOpts(), ice.WithCandidateTypes(typesFor(k.relayA)))
 	if k.aliasA {
 		cfg.AliasA = "198.51.100.1"
 	}
 	if k.liteB {
 		cfg.OptsB = append(commonOpts(), ice.WithICELite(true), ice.WithCandidateTypes([]ice.CandidateType{ice.CandidateTypeHost}))
 	} else {
-		cfg.OptsB = append(commonOpts(), ice.WithCandidateTypes([]ice.CandidateType{ice.CandidateTypeHost, ice.CandidateTypeServerReflexive}))
+		cfg.OptsB = append(commonOpts(), ice.WithCandidateTypes(typesFor(k.relayB)))
 		if k.aliasB {
 			cfg.AliasB = "198.51.100.2"
 		}
@@ -181,8 +195,9 @@ func candIPs(a *rig.AgentH) []netip.Addr {
 	seen := map[netip.Addr]bool{}
 	for _, cand := range a.LocalCands() {
 		ip := rig.CandAP(cand).Addr()
-		if a.Host.NAT != nil {
-			// what the other side observes for any candidate of a NATed host is the NAT's public address
+		if a.Host.NAT != nil && cand.Type() != ice.CandidateTypeRelay {
+			// what the other side observes for a host/srflx candidate of a NATed host is the NAT's public
+			// address (a relay candidate lives on the relay host)
 			ip = a.Host.NAT.Public
 		}
 		if !seen[ip] {
@@ -307,11 +322,17 @@ func (s *c01Session) generation(gen int) {
 		// Datagrams addressed to an agent that has not been started stay in flight: a not-yet-started
 		// agent queues them in its sockets and, at Start, several of its goroutines race to hand them
 		// to the task loop - an order the simulator does not control at this level.
+		own := map[*rig.AgentH]map[netip.Addr]bool{d.A: {}, d.B: {}}
+		for _, ag := range []*rig.AgentH{d.A, d.B} {
+			for _, cand := range ag.LocalCands() {
+				own[ag][rig.CandAP(cand).Addr()] = true // includes relay addresses, which live on the relay host
+			}
+		}
 		d.S.Hold = func(dg *simnet.Datagram) bool {
-			if d.A.Conn == nil && d.HA.Owns(dg.Dst.Addr()) {
+			if d.A.Conn == nil && (d.HA.Owns(dg.Dst.Addr()) || own[d.A][dg.Dst.Addr()]) {
 				return true
 			}
-			return d.B.Conn == nil && d.HB.Owns(dg.Dst.Addr())
+			return d.B.Conn == nil && (d.HB.Owns(dg.Dst.Addr()) || own[d.B][dg.Dst.Addr()])
 		}
 	}
 	sig := func(from, to *rig.AgentH, cand ice.Candidate) func() {
@@ -554,6 +575,9 @@ func (s *c01Session) sockOf(ag *rig.AgentH, local netip.AddrPort) *simnet.Sock {
 		}
 		if cand.Type() == ice.CandidateTypeHost {
 			return ag.Host.FindSock(local)
+		}
+		if cand.Type() == ice.CandidateTypeRelay {
+			return s.d.W.FindSockAnywhere(local)
 		}
 		if ra := cand.RelatedAddress(); ra != nil {
 			return ag.Host.SockByPort(uint16(ra.Port))
